@@ -10,7 +10,7 @@ import Bng.Model.PppoeTimed
     padi m1 | padr m1 cookie|nocookie | padt m1 <sid>
     lcp m1 <sid> creq|cack|cnak|term|echo
     pap m1 <sid> good|bad|empty accept|reject|down
-    ipcp m1 <sid> creq-ip|creq-dns|creq-none|cack
+    ipcp m1 <sid> creq-ip|creq-own|creq-dns|creq-none|cack      (creq-ip asks with 0.0.0.0, creq-own names 10.77.0.2)
     ip m1 <sid> | sweep            (everything is idle)
     age <hours> | sweep <hours>    (virtual idle time: the sweep removes the sessions idle for MORE than <hours>)
          => sent=<frames|-> sess=<sid:mac:STATE:auth|unauth:ip|-,…|-> pool=<free>/<allocated>
@@ -31,6 +31,7 @@ def showOut : Out → String
   | .ipcpack sid m => s!"IPCPACK:{sid}>m{m}"
   | .ipcpnak (some ip) sid m => s!"IPCPNAK[{ip}]:{sid}>m{m}"
   | .ipcpnak none sid m => s!"IPCPNAK:{sid}>m{m}"
+  | .ipcprej sid m => s!"IPCPREJ:{sid}>m{m}"
 
 def showSrv (s : Srv) (outs : List Out) : String :=
   let j := fun (l : List String) => if l.isEmpty then "-" else ",".intercalate l
@@ -58,7 +59,7 @@ def parseIn (toks : List String) : Option In :=
   | ["ipcp", m, sid, k] => do
       let m ← parseTagged 'm' m; let sid ← sid.toNat?
       let k ← match k with
-        | "creq-ip" => some IpcpKind.creqIp | "creq-dns" => some .creqDns | "creq-none" => some .creqNone
+        | "creq-ip" => some IpcpKind.creqIp | "creq-own" => some IpcpKind.creqIp | "creq-dns" => some .creqDns | "creq-none" => some .creqNone
         | "cack" => some .cack | _ => none
       pure (.ipcp m sid k)
   | ["ip", m, sid] => do let m ← parseTagged 'm' m; let sid ← sid.toNat?; pure (.ip m sid)
@@ -88,7 +89,8 @@ def parseSent (s : String) : List Sent :=
     match (item.splitOn ">") with
     | [l, _] => match l.splitOn ":" with
       | [k, sid] => sid.toNat?.map fun n =>
-          { sid := n, pads := k == "PADS", ipcpAns := k == "IPCPACK" || k.startsWith "IPCPNAK[", kind := k }
+          { sid := n, pads := k == "PADS", ipcpAns := k == "IPCPACK" || k.startsWith "IPCPNAK[",
+            ack := k == "IPCPACK", kind := k }
       | _ => none
     | _ => none
 
